@@ -82,6 +82,26 @@ def main():
         obligations = max(1, len(re.findall(r"Print Assumptions", src)))
         if ok:
             proof_problems.append("Properties.v does not compile: %s" % props["log"][-800:])
+    # thorough: independent re-check of the compiled theorems with coqchk, axioms listed
+    if tier == "thorough" and props["ok"] and os.environ.get("VERIF_NO_COQCHK") != "1":
+        t = time.time()
+        d = vlib.coq_dir(pid)
+        rc, out, err = vlib.sh(["coqchk", "-o", "-silent"] + vlib.coqproject_args(d) + [pid + ".Properties"], cwd=d, timeout=3000)
+        txt = out + err
+        summ = txt[txt.find("CONTEXT SUMMARY"):] if "CONTEXT SUMMARY" in txt else txt[-1500:]
+        axioms = re.search(r"\* Axioms:(.*?)\n\s*\n\* Constants", summ, re.S)
+        coverage["coqchk"] = {"rc": rc, "wall_s": round(time.time() - t, 1),
+                              "axioms": re.sub(r"\s+", " ", axioms.group(1)).strip() if axioms else "?",
+                              "summary": re.sub(r"[ \t]+", " ", summ)[:1500]}
+        if rc != 0:
+            proof_problems.append("coqchk rejects %s.Properties: %s" % (pid, txt[-600:]))
+        else:
+            listed = [a for a in re.findall(r"([A-Za-z0-9_'.]+)\s*$", "", re.M)]
+            ax_txt = coverage["coqchk"]["axioms"]
+            if ax_txt not in ("<none>", "?"):
+                for a in ax_txt.split():
+                    if a.strip() and a.strip() not in allowed and a.split(".")[-1] not in allowed:
+                        proof_problems.append("coqchk: loaded library axiom %s not in the plugin's allow-list" % a)
     gate = vlib.grep_gate(["Base", pid])
     if gate:
         proof_problems.append("forbidden vernacular: %s" % gate[:5])
